@@ -418,7 +418,8 @@ PROPS["C09"] = {
 
 PROPS["C07"] = {
     "title": "Point-in-path agrees with the winding number",
-    "gen_modules": ["Basis", "Walk", "PointInPath", "PathRev"],
+    "gen_modules": ["Consts", "Basis", "Lines", "CurveLine", "FatLine", "Walk", "Normal", "Ray", "PointInPath", "PathRev"],
+    "props_modules": ["C07", "C04", "C14"],
     "corr_n": (4000, 80000),
     "search_n": (200, 4000),
     "technique": "Lean 4 theorems about path_contains_point translated WHOLE (bounds test, ray, loop with break, signed sum, != 0; ray_collisions as a parameter) and normal_at_pos / tangent_at_pos from "
@@ -437,7 +438,7 @@ PROPS["C07"] = {
                   "polygon given as a path of straight edges (as line_to builds them), IF the collision list is faithful (the counted collisions are exactly one per edge crossing the ray), "
                   "path_contains_point = (winding number along ANY ray in general position != 0). NOT proved, searched on the real code only: that ray_collisions is faithful and equivariant "
                   "(crossing search + the clean-up filters of ray.rs), and curved edges (Jordan-curve content): decided by the exact winding-number oracle on circles, blobs, polygons.",
-    "level_note": "ray_collisions (ray.rs:702 and its filters) is a parameter of every theorem, not modelled. The correspondence feeds the model with the list the real ray_collisions returns through its "
+    "level_note": "The theorems of C04 (curve_intersects_ray: every hit is on the curve and the line, every root in [0,1] is reported given the solver contract) and of C14 (the ray_collisions pipeline) are obligations of this check too: they are the chain from the collision list to the code anchored for C07 (curve_line.rs, ray.rs), so a change there breaks this check's tie as well. ray_collisions (ray.rs:702 and its filters) is a parameter of every theorem, not modelled. The correspondence feeds the model with the list the real ray_collisions returns through its "
                   "only public door, GraphPath::ray_collisions, which normalises the path direction: only clockwise paths (the others after reversal) whose graph keeps all curves are tied. "
                   "signum(0) = 1 in the theorems (binary64: the sign of the zero decides); in binary64 max + 0.01 = max for |max| >= 2^47, so ray_starts_outside_box is an exact-arithmetic statement. " + COMMON_NOTE,
     "rule": "corr: random closed paths (circles, rotated circles, blobs, convex/concave polygons, grid rectangles, L shapes, polygons with collinear vertices; either direction, any start vertex) x 10 query "
